@@ -168,6 +168,10 @@ def instrument(rec: Rec, poison: dict) -> Iterator[None]:
         tag = {"Root": "rtStopRoots", "Hung": "rtStopHung", "Core": "scStopCore"}.get(title, "stop:" + title)
         if title == "Hung":
             _watch_hung(tasks)
+        if title == "Root":
+            # (`spawn_tasks` itself stops its tasks when it is cancelled in its final `sleep(0)`, since /repo d6da86b: it never
+            #  returns them, so this is the only place to see them)
+            _watch_roots(tasks)
         rec.add(tag + "Begin", len(tasks), bool(kw.get("cancelled")))
         try:
             out = await aiotasks.stop(tasks, title=title, **kw)
@@ -230,7 +234,11 @@ def instrument(rec: Rec, poison: dict) -> Iterator[None]:
         orig_close = vault.close
 
         async def close() -> None:
-            await orig_close()
+            try:
+                await orig_close()
+            except asyncio.CancelledError:
+                rec.add("vaultCloseCancelled")
+                raise
             rec.add("vaultClosed")
         vault.close = close  # type: ignore[method-assign]
         return orig_sca(**kw)
@@ -239,15 +247,25 @@ def instrument(rec: Rec, poison: dict) -> Iterator[None]:
 
     orig_spawn = running.spawn_tasks
 
-    async def r_spawn_tasks(**kw: Any) -> Any:
-        rec.add("spawn")
-        tasks = await orig_spawn(**kw)
+    roots_watched: set[int] = set()
 
+    def _watch_roots(tasks: Any) -> None:
         def cb(t: asyncio.Task) -> None:
             how, exc = _how(t)
             rec.add("rootEnd", ROOT_NAMES.get(t.get_name(), t.get_name()), how, exc)
         for t in list(tasks) + list(holder.get("core_tasks", [])):
-            t.add_done_callback(cb)
+            if id(t) not in roots_watched:
+                roots_watched.add(id(t))
+                t.add_done_callback(cb)
+
+    async def r_spawn_tasks(**kw: Any) -> Any:
+        rec.add("spawn")
+        try:
+            tasks = await orig_spawn(**kw)
+        except asyncio.CancelledError:
+            rec.add("spawnCancelled")       # operator() was cancelled inside spawn_tasks (its final `sleep(0)`)
+            raise
+        _watch_roots(tasks)
         rec.add("spawned", sorted(ROOT_NAMES.get(t.get_name(), t.get_name()) for t in tasks))
         return tasks
 
@@ -421,11 +439,14 @@ def instrument(rec: Rec, poison: dict) -> Iterator[None]:
 
     async def d_stop_daemon(**kw: Any) -> Any:
         did = str(kw["daemon"].handler.id)
-        rec.add("stopperBegin", did, str(kw["reason"]))
+        # whose daemon: the stopper knows the object only through the daemon's logger
+        oname = ((getattr(kw["daemon"].logger, "extra", None) or {}).get("k8s_ref") or {}).get("name")
+        rec.add("stopperBegin", did, str(kw["reason"]), oname)
         try:
             return await orig_stop_daemon(**kw)
         finally:
-            rec.add("stopperEnd", did, kw["daemon"].task.done())
+            # OBSERVED cooperativity: did the daemon's task end within its stopper's patience, or was it given up ("orphaned")?
+            rec.add("stopperEnd", did, kw["daemon"].task.done(), oname)
 
     patch(daemons, "stop_daemon", d_stop_daemon)
 
@@ -535,11 +556,40 @@ def run_history(sc: dict, wall_limit: float = 30.0) -> dict:
             daemon.__name__ = daemon.__qualname__ = h["id"]
             return daemon
 
+        def make_polling_daemon(h: dict) -> Any:
+            """A daemon that looks at its `stopped` flag only every `poll` seconds (`asyncio.sleep`, not `stopped.wait`): it does not
+            exit "instantly" on the stopper; it does within `cancellation_backoff` if that is long enough, or on the cancellation."""
+            poll = float((h.get("daemon") or {}).get("poll", 0.5))
+
+            async def daemon(**kw: Any) -> None:
+                stopped = kw["stopped"]
+                while not stopped:
+                    await asyncio.sleep(poll)
+            daemon.__name__ = daemon.__qualname__ = h["id"]
+            return daemon
+
+        def make_unwinding_daemon(h: dict) -> Any:
+            """A daemon that ignores its flag and needs `unwind` seconds to clean up after itself when it is cancelled."""
+            unwind = float((h.get("daemon") or {}).get("unwind", 0.5))
+
+            async def daemon(**kw: Any) -> None:
+                try:
+                    await asyncio.sleep(2.0 ** 20)
+                finally:
+                    await asyncio.sleep(unwind)     # (a further cancellation — the hung-task stop — ends this at once)
+            daemon.__name__ = daemon.__qualname__ = h["id"]
+            return daemon
+
         orig_make = sim.obs.make_handler
 
         def make_handler(h: dict) -> Any:
-            if h["kind"] == "daemon" and (h.get("daemon") or {}).get("mode") == "ignore":
+            mode = (h.get("daemon") or {}).get("mode") if h["kind"] == "daemon" else None
+            if mode == "ignore":
                 return wrap_handler(h, make_ignoring_daemon(h))
+            if mode == "poll":
+                return wrap_handler(h, make_polling_daemon(h))
+            if mode == "unwind":
+                return wrap_handler(h, make_unwinding_daemon(h))
             return wrap_handler(h, orig_make(h))
         sim.obs.make_handler = make_handler  # type: ignore[method-assign]
         sim.registry = scenario.build_registry(sim.sc, sim.obs)
@@ -591,6 +641,13 @@ def run_history(sc: dict, wall_limit: float = 30.0) -> dict:
 
         for o in sc.get("objects", []):
             c.create_raw(kex, "ns", o["name"], o.get("body", {"spec": {"x": 0}}))
+        # a SECOND served kind (its own watch stream in the orchestrator's ensemble: handlers with `"resource": "kopfwidgets"`)
+        kex2 = None
+        if sc.get("second_kind"):
+            kex2 = fakeapi.ResourceDef("kopf.dev", "v1", "kopfwidgets", "KopfWidget", namespaced=True)
+            c.add_resource(kex2)
+            for o in sc["second_kind"].get("objects", []):
+                c.create_raw(kex2, "ns", o["name"], {"spec": {"x": 0}})
         if sc.get("peering"):
             c.create_raw(fakeapi.CLUSTER_PEERING, None, "default", {})
         if sc.get("crd_object"):                # the CRD of the served resource exists as an object (its deletion is an event)
@@ -632,7 +689,16 @@ def run_history(sc: dict, wall_limit: float = 30.0) -> dict:
             sim.ops["op"] = op
             holder_op["op"] = op
             tasks_before = set(asyncio.all_tasks())
+            if sc.get("empty_vault"):
+                # the operator starts WITHOUT credentials (the harness' runner pre-populates the vault): the login handlers run
+                # at the start, in the core task, behind the started flag
+                from kopf._cogs.structs import credentials as _cred
+                real_vault = _cred.Vault
+                stack.callback(lambda: setattr(_cred, "Vault", real_vault))
+                _cred.Vault = lambda *_a, **_k: real_vault()  # type: ignore[misc,assignment]
             await op.start()
+            if sc.get("empty_vault"):
+                _cred.Vault = real_vault  # type: ignore[misc]
             assert op.task is not None and op.stop_flag is not None
 
             def op_done(t: asyncio.Task) -> None:
@@ -645,7 +711,7 @@ def run_history(sc: dict, wall_limit: float = 30.0) -> dict:
             for ev in sorted(sc.get("ops", []), key=lambda e: e[0]):
                 t, kind, args = ev[0], ev[1], ev[2:]
                 await sim.sleep_until(t)
-                if op.task.done() and kind not in ("edit", "mark"):
+                if op.task.done() and kind not in ("edit", "edit2", "mark"):
                     continue
                 rec.add("op", kind, *args)
                 if kind == "flag":
@@ -658,6 +724,9 @@ def run_history(sc: dict, wall_limit: float = 30.0) -> dict:
                     op.task.cancel()
                 elif kind == "edit":
                     c.edit(kex, "ns", args[0], {"spec": {"x": args[1]}})
+                elif kind == "edit2":            # an object of the second kind
+                    assert kex2 is not None
+                    c.edit(kex2, "ns", args[0], {"spec": {"x": args[1]}})
                 elif kind == "create":
                     if c.get(kex, "ns", args[0]) is None:
                         c.create_raw(kex, "ns", args[0], {"spec": {"x": args[1] if len(args) > 1 else 0}})
